@@ -27,6 +27,8 @@ KappaOfState == IF mn = BZero THEN KappaSentinel ELSE Clamp(RMk(1, dn, mn))
 \* C02 (M): the scaled integer form is the definition
 DeltaIsDefinition == (CheckDef /\ Len(pat) >= 1) => REq(Delta(pat), DeltaDef(pat))
 DeltaZeroShort == Len(pat) <= 4 => dn = BZero
+\* the BigNat evaluation used above LongChain residues is the same number as the integer one
+LongChainFormSame == DeltaNumBig(pat) = DeltaNumSmall(pat) /\ dn = DeltaNumSmall(pat)
 \* C01 (M)
 SentinelIffNoVariance == (mn = BZero) => (dn = BZero)      \* and every arrangement is a state of this run
 KappaWellDefined == (p + n > 0 /\ mn # BZero) => (KappaOfState.s = 1 \/ dn = BZero)
